@@ -294,10 +294,31 @@ def index_space(prog, rep):
     return n
 
 
-def run(prog, rep):
-    index_space(prog, rep)
+def restricted_cursor_calls(fns):
+    out = []
+    for f in sorted(fns, key=lambda x: x.id):
+        if f.body is None:
+            continue
+        for b, t in f.body.calls():
+            if is_callee(t, r"tree_sitter::QueryCursor::(set_match_limit|set_byte_range|set_point_range|set_max_start_depth|set_timeout_micros|set_containing_\w+)$"):
+                out.append((f, t))
+    return out
+
+
+def query_mutations(fns):
+    out = []
+    for f in sorted(fns, key=lambda x: x.id):
+        if f.body is None:
+            continue
+        for b, t in f.body.calls():
+            if is_callee(t, r"tree_sitter::Query::(disable_capture|disable_pattern)$"):
+                out.append((f, t))
+    return out
+
+
+def capture_and_cursor(prog, rep):
+    """C03.C: capture evaluation shape and unrestricted query cursors (shared with C01 and C08)"""
     tg = Tagger(prog)
-    # capture evaluation shape and unrestricted cursors
     rep.rule("C03.C", "a capture evaluates to Value::from_nodes(graph, mat.nodes_for_capture_index(index), quantifier) in both modes; query cursors are used unrestricted (no match limit, byte/point range, depth or timeout)")
     for nm in ("evaluate", "evaluate_lazy"):
         fl = [f for f in prog.find(self_ty="tsg::ast::Capture", name=nm)]
@@ -314,14 +335,18 @@ def run(prog, rep):
             ok = a[0].endswith("arg:exec.graph") and re.match(r"^QueryMatch::nodes_for_capture_index\(&\*\*arg:exec\.mat, cast\(\*arg:self\.(stanza|file)_capture_index\)\)$", a[1]) is not None and a[2] == "*arg:self.quantifier"
             detail = str(a)[:200]
         rep.check(ok, "C03.C", "%s :: capture evaluation" % f.id, f.loc(), "from_nodes(graph, mat.nodes_for_capture_index(idx), self.quantifier)", "a capture is not evaluated from tree-sitter's own node iterator for that capture index: " + detail)
-    for f in sorted(prog.fns.values(), key=lambda x: x.id):
-        if f.body is None:
-            continue
-        for b, t in f.body.calls():
-            if is_callee(t, r"tree_sitter::QueryCursor::(set_match_limit|set_byte_range|set_point_range|set_max_start_depth|set_timeout_micros|set_containing_\w+)$"):
-                rep.violation("C03.C", "%s :: %s" % (f.id, callee_fn(t)["def"].rsplit("::", 1)[-1]), sp_str(t["sp"]), "the query cursor is restricted: matches outside the limit are silently not reported")
+    for f, t in restricted_cursor_calls(prog.fns.values()):
+        rep.violation("C03.C", "%s :: %s" % (f.id, callee_fn(t)["def"].rsplit("::", 1)[-1]), sp_str(t["sp"]), "the query cursor is restricted: matches outside the limit are silently not reported")
+    rep.control("C03.C", prog.control is not None and {callee_fn(t)["def"].rsplit("::", 1)[-1] for _f, t in restricted_cursor_calls(prog.control.fns.values())} >= {"set_match_limit", "set_byte_range"},
+                "planted set_match_limit / set_byte_range calls are reported")
     ncur = sum(1 for f in prog.fns.values() if f.body is not None for b, t in f.body.calls() if is_callee(t, r"tree_sitter::QueryCursor::new$"))
     rep.floor("C03.C", ncur, 2, "query cursors")
+
+
+def run(prog, rep):
+    index_space(prog, rep)
+    tg = Tagger(prog)
+    capture_and_cursor(prog, rep)
     # E3.p
     rep.rule("E3.p", "one pattern per stanza; the merged query text is appended exactly once per stanza, in order; parse_stanza is the only producer of stanzas")
     ctx = e1_panic.Ctx(prog)
@@ -331,13 +356,14 @@ def run(prog, rep):
     # E5: stanzas / queries immutable after parsing
     rep.rule("E5.q", "File.stanzas is only pushed to by the parser (never removed from, reordered or filtered) and no compiled Query is mutated")
     nq = 0
+    for f, t in query_mutations(prog.fns.values()):
+        rep.violation("E5.q", "%s :: %s" % (f.id, callee_fn(t)["def"].rsplit("::", 1)[-1]), sp_str(t["sp"]), "a compiled query is mutated after construction (captures/patterns disabled)")
+    rep.control("E5.q", prog.control is not None and len(query_mutations(prog.control.fns.values())) == 2, "planted disable_capture / disable_pattern calls are reported")
     for f in sorted(prog.fns.values(), key=lambda x: x.id):
         if f.body is None:
             continue
         tr = None
         for b, t in f.body.calls():
-            if is_callee(t, r"tree_sitter::Query::(disable_capture|disable_pattern)$"):
-                rep.violation("E5.q", "%s :: %s" % (f.id, callee_fn(t)["def"].rsplit("::", 1)[-1]), sp_str(t["sp"]), "a compiled query is mutated after construction (captures/patterns disabled)")
             if is_callee(t, r"Vec::<T, A>::(remove|swap_remove|truncate|clear|pop|drain|retain|retain_mut|split_off|dedup\w*|insert|push|sort\w*|reverse|swap|append|extend\w*)$",
                          r"<impl \[T\]>::(sort\w*|reverse|swap|rotate\w*)$"):
                 tr = tr or tg.tracer(f)
